@@ -30,8 +30,9 @@ namespace Coupe.Rcb
 
 variable {α : Type} [Coord α]
 
-/-- The target of the cut search: `(a + b) / 2.0`. -/
-abbrev mid (a b : α) : α := Coord.half (Coord.add a b)
+/-- The target of the cut search: `Coord.mid` (`a / 2.0 + b / 2.0` in the code since /repo
+2a9cff7, `(a + b) / 2` – floor – on the integer instance). -/
+abbrev mid (a b : α) : α := Coord.mid a b
 
 /-- A coordinate type whose values in `S` are ranked by integers, compatibly with `<`, such
 that the midpoint of an interval lies (by rank) inside it, and a midpoint that has the
@@ -57,15 +58,15 @@ def intRanked : RankedCoord Int where
   mid_mem := fun _ _ _ _ => trivial
   mid_between := by
     intro a b _ _ h
-    simp only [mid, Coord.half, Coord.add, id] at *
+    simp only [mid, Coord.mid, Coord.half, Coord.add, id] at *
     omega
   mid_fix_lo := by
     intro a b _ _ h1 h2
-    simp only [mid, Coord.half, Coord.add, id] at *
+    simp only [mid, Coord.mid, Coord.half, Coord.add, id] at *
     omega
   mid_fix_hi := by
     intro a b _ _ h1 h2
-    simp only [mid, Coord.half, Coord.add, id] at *
+    simp only [mid, Coord.mid, Coord.half, Coord.add, id] at *
     omega
 
 /-- A target that repeats the previous one makes the search return at once (any
@@ -192,8 +193,8 @@ theorem split_pos_rank (R : RankedCoord α) (wt : Int → Int → Bool) (coord :
   rcases split_pos_aux wt coord sum items fuel 0 mn mx none false out h with ⟨_, e⟩ | ⟨_, e⟩
   · rw [e]; exact ⟨h2, by omega, h5⟩
   · rw [e]
-    have hb : R.rank out.lastMin ≤ R.rank (Coord.half (Coord.add out.lastMin out.lastMax)) ∧
-        R.rank (Coord.half (Coord.add out.lastMin out.lastMax)) ≤ R.rank out.lastMax :=
+    have hb : R.rank out.lastMin ≤ R.rank (Coord.mid out.lastMin out.lastMax) ∧
+        R.rank (Coord.mid out.lastMin out.lastMax) ≤ R.rank out.lastMax :=
       R.mid_between _ _ h1 h2 h4
     exact ⟨R.mid_mem _ _ h1 h2, by omega, by omega⟩
 
